@@ -229,7 +229,7 @@ func scenarioC15(r *Run) {
 		sw.FailCode = []codes.Code{codes.Internal, codes.Unavailable, codes.NotFound, codes.ResourceExhausted, codes.PermissionDenied, codes.Aborted}[k]
 		codeName = ":" + sw.FailCode.String()
 	}
-	family := r.Ch.Choose(6, "family")
+	family := r.Ch.Choose(7, "family")
 	second := r.Ch.Choose(5, "second-fault") == 1
 	p := r.AddPeer()
 	r.StartAgent()
@@ -388,6 +388,58 @@ func scenarioC15(r *Run) {
 		if b != nil && len(r.Violations) == 0 {
 			del(b)
 		}
+	case 6:
+		// The terminations tables of the switch are full (no injected fault: the
+		// switch says RESOURCE_EXHAUSTED by itself). The establishment is refused
+		// after its sessions entry was written; the control plane sends the same
+		// session again while the tables are still full: that Write is answered
+		// [ALREADY_EXISTS, RESOURCE_EXHAUSTED] and must be refused as well; once
+		// there is room again a third attempt goes through.
+		est(false)
+		oldUL := sw.ResizeTable(tTermUL, int64(len(sw.Table(tTermUL))))
+		oldDL := sw.ResizeTable(tTermDL, int64(len(sw.Table(tTermDL))))
+		s1 := g.Session(p, SessShape{NQER: 1 + r.Ch.Choose(2, "nq")})
+		again := func(tag string) bool {
+			s := g.Session(p, SessShape{NQER: len(s1.QERs)})
+			for i, pd := range s.PDRs {
+				if i < len(s1.PDRs) {
+					pd.UEIP, pd.TEID, pd.TEIDAddr = s1.PDRs[i].UEIP, s1.PDRs[i].TEID, s1.PDRs[i].TEIDAddr
+				}
+			}
+			for i, f := range s.FARs {
+				if i < len(s1.FARs) {
+					*f = *s1.FARs[i]
+				}
+			}
+			full0 := sw.Fired["p4-table-full"]
+			res := p.Establish(s)
+			hit := sw.Fired["p4-table-full"] > full0
+			r.Op("establish cp=%d (%s) -> accepted=%v cause=%d (the switch answered RESOURCE_EXHAUSTED during it: %v)", s.CPSEID, tag, res.Accepted, res.Cause, hit)
+			if hit {
+				r.SetFaultCtx("table-full:" + tag)
+				r.Fault("p4-table-full-in-establishment")
+				if res.Accepted {
+					r.Violate("C15", "establishment-accepted-although-write-failed:table-full:"+tag, "the switch refused an INSERT of the establishment of cp=%d with RESOURCE_EXHAUSTED (terminations table full, %s) but the request was answered with acceptance", s.CPSEID, tag)
+				}
+			}
+			if res.Accepted {
+				r.Accepted++
+			} else {
+				delete(p.Sessions, s.CPSEID)
+			}
+			checkP4IDs(r, "C15", fmt.Sprintf("after the %s establishment of cp=%d with full terminations tables", tag, s.CPSEID))
+			return res.Accepted
+		}
+		again("first-attempt")
+		if len(r.Violations) == 0 && r.AgentAlive() {
+			again("sent-again")
+		}
+		sw.ResizeTable(tTermUL, oldUL)
+		sw.ResizeTable(tTermDL, oldDL)
+		if len(r.Violations) == 0 && r.AgentAlive() {
+			again("room-again")
+		}
+		r.Skel("table-full")
 	}
 	if second && len(r.Violations) == 0 {
 		sw.Faults.FailNth = 0
